@@ -549,8 +549,15 @@ impl<'a> Lexer<'a> {
     }
 
     fn scan_apostrophe_suffix(&self, start: usize) -> Option<LexResult<'a>> {
-        self.scan_for_text(start, "'s", TokenType::ApostropheS)
-            .or_else(|| self.scan_for_text(start, "'re", TokenType::ApostropheRE))
+        // in any letter case, like the suffix of a word (see tokenize_word)
+        ["'s", "'S"]
+            .iter()
+            .find_map(|text| self.scan_for_text(start, text, TokenType::ApostropheS))
+            .or_else(|| {
+                ["'re", "'RE", "'Re", "'rE"]
+                    .iter()
+                    .find_map(|text| self.scan_for_text(start, text, TokenType::ApostropheRE))
+            })
     }
 
     fn make_error_token(&self, start: usize, error: ErrorMessage) -> LexResult<'a> {
